@@ -118,7 +118,8 @@ func c11bStageNames(c *Ctx, base string, all bool) []string {
 	return out
 }
 
-var c11bKeyPool = []string{"x1", "_x1", "1", "0", "10", "x", "_", "1_0", "_x", "01", "x10", "1x", "a.b", "a/b", "%", "é", "fork1", "0/fork1", "00"}
+var c11bKeyPool = []string{"x1", "_x1", "1", "0", "10", "x", "_", "1_0", "_x", "01", "x10", "1x", "a.b", "a/b", "%", "é", "fork1", "0/fork1", "00",
+	"matched_normal", "normal", "a_b", "b", "xb", "0_1", "x_1", "_1", "b_"}
 
 // one fork table: the part lists of the forks of one node, in list order
 func c11bForkTable(c *Ctx, kind int) [][]c11Part {
@@ -142,7 +143,24 @@ func c11bForkTable(c *Ctx, kind int) [][]c11Part {
 		for _, i := range c.Rng.Perm(len(c11bKeyPool))[:n] {
 			ks = append(ks, c11bKeyPool[i])
 		}
+		// one key a ("_"-)suffix of another one
+		if c.Rng.Intn(2) == 0 {
+			pairs := [][2]string{{"matched_normal", "normal"}, {"a_b", "b"}, {"xb", "b"}, {"0_1", "1"}, {"1_0", "0"}, {"x_1", "_1"}, {"x1", "1"}, {"b_", "_"}}
+			p := pairs[c.Rng.Intn(len(pairs))]
+			have := map[string]bool{}
+			for _, k := range ks {
+				have[k] = true
+			}
+			for _, k := range p {
+				if !have[k] {
+					ks = append(ks, k)
+				}
+			}
+		}
 		st := c.Rng.Intn(2) == 0
+		if c.Rng.Intn(2) == 0 {
+			sort.Strings(ks) // the order in which the runtime lists the forks of a map call
+		}
 		for _, k := range ks {
 			forks = append(forks, []c11Part{key(k, ks, st)})
 		}
